@@ -41,6 +41,7 @@ Definition lit_1em8 := Lit (1#100000000) 1e-8%float.
 Definition lit_1em10 := Lit (1#10000000000) 1e-10%float.
 Definition lit_1em18 := Lit (1#1000000000000000000) 1e-18%float.
 Definition lit_half := Lit (1#2) 0.5%float.
+Definition lit_075 := Lit (3#4) 0.75%float.
 Definition lit_2 := Lit (2#1) 2%float.
 Definition lit_3 := Lit (3#1) 3%float.
 Definition lit_100 := Lit (100#1) 100%float.
